@@ -9,7 +9,7 @@ CONSTANT Tier
 
 Classes == {"Q", "B", "N", "E", "C", "D", "n", "u", "A", "U", "S"}
 Strs == {<< >>} \cup {<<c>> : c \in Classes} \cup {<<"B", "n">>, <<"N", "B">>, <<"Q", "B">>, <<"S", "U">>}
-StrsFor == IF Tier = "quick" THEN {<< >>, <<"N">>, <<"E">>, <<"C">>, <<"B", "n">>, <<"Q", "B">>, <<"S", "U">>, <<"D">>} ELSE Strs
+StrsFor == IF Tier = "quick" THEN {<< >>, <<"N">>, <<"E">>, <<"C">>, <<"B">>, <<"B", "n">>, <<"Q", "B">>, <<"S", "U">>, <<"D">>} ELSE Strs
 Docs == {"link", "layout"}
 
 MCInit ==
